@@ -244,6 +244,7 @@ type Step struct {
 	ChildExpansion bool  // inside a CHECKPREDICATE child of an expansion-reserved run: an expansion opcode or CHECKOUTPUT
 	ChildRan       bool  // CHECKPREDICATE that started a child frame
 	ChildAllGas    bool  // ... with limit operand 0 ("all remaining")
+	ChildUnpaid    bool  // ... whose child ran out of gas settling the deferred cost of items it had already pushed
 }
 
 // Event is one element of the expected execution trace.
@@ -459,6 +460,8 @@ type frame struct {
 	faults   map[Class]bool
 	st       *Step
 	snap     *failState // state at the first fault of the current step
+	// deferredFail: the frame ran out of gas when the deferred costs of a finished instruction were settled
+	deferredFail bool
 }
 
 // failState is what a frame looks like at the moment its first fault is noticed.
@@ -618,6 +621,10 @@ func (f *frame) run() bool {
 			f.exec(ins)
 			if !f.bad() {
 				f.apply(f.deferred)
+				if f.bad() && f.deferred > 0 {
+					// the instruction's pushes are on the stack, their (deferred) cost could not be paid
+					f.deferredFail = true
+				}
 			}
 		}
 		if f.bad() {
@@ -1464,6 +1471,9 @@ func (f *frame) checkPredicate() {
 	if f.m.panicked { // a runtime panic unwinds every frame
 		f.fault(Panic)
 		return
+	}
+	if !ok && child.deferredFail {
+		st.ChildUnpaid = true
 	}
 	f.deferred -= child.limit + itemsCost(child.data) + itemsCost(child.alt)
 	f.pushBool(ok && len(child.data) > 0 && AsBool(child.data[len(child.data)-1].b), true)
